@@ -152,6 +152,9 @@ class Prog:
     def set_origin_ref(self, obj, v):
         self.steps.append({'op': 'set', 'obj': obj, 'part': 'origin_reference', 'v': v})
 
+    def rename(self, obj, name):
+        self.steps.append({'op': 'set', 'obj': obj, 'part': 'name', 'v': name})
+
     def nofmt(self, lf, obj, payload, kind='bytes'):
         if isinstance(payload, str):
             payload = payload.encode('latin-1')
